@@ -476,6 +476,10 @@ func Select(a, i *Term) *Term {
 			a = a.Args[0]
 			continue
 		}
+		if refsDistinct(i, j) {
+			a = a.Args[0]
+			continue
+		}
 		break
 	}
 	return App("select", vs, a, i)
